@@ -15,7 +15,7 @@ def strip_lines(r):
     return re.sub(r"(B [0-9a-f-]+):\d+", r"\1", r)
 
 
-def front_check(PROP, THEOREMS, tier, seed, gen_kw, extra_modules=("Model.All",), n_quick=2500, n_thorough=25000,
+def front_check(PROP, THEOREMS, tier, seed, gen_kw=None, extra_modules=("Model.All",), n_quick=2500, n_thorough=25000,
                 nspell=3, replay=None, extra_suites=None, focus=None, skip_include_scope=False):
     run = Run(PROP, tier, seed, "proof")
     rng = random.Random(seed)
